@@ -42,7 +42,8 @@ theorem gen_structure :
 /-- the server serves every session it registers: the connection that made the session runs `serveSession` for it even when
 its own handshake reply could not be written (before /repo's fix it returned, and connections that joined the session later
 found it registered, healthy — and never served: `c01creator.go`) -/
-theorem gen_session_served : Gen.Deliver.creatorServesSessionEvenIfReplyFails = true := by decide
+theorem gen_session_served :
+    Gen.Deliver.creatorServesSessionEvenIfReplyFails = true ∧ Gen.Deliver.wsResponderReportsFailedUpgrade = true := by decide
 
 /-! ## the sender's chunking loses nothing -/
 
